@@ -731,16 +731,18 @@ class DiHypergraph:
 
         format1, format2, format3, format4 = False, False, False, False
 
-        if (
+        if len(first_edge) == 3:
+            # (members, id, attr): never a bare (tail, head) pair, even when
+            # the id is iterable itself (e.g. a tuple)
+            format4 = True
+        elif (
             isinstance(second_elem, Iterable)
             and not isinstance(second_elem, str)
             and not isinstance(second_elem, dict)
         ):
             format1 = True
         else:
-            if len(first_edge) == 3:
-                format4 = True
-            elif len(first_edge) == 2 and issubclass(type(first_edge[1]), Hashable):
+            if len(first_edge) == 2 and issubclass(type(first_edge[1]), Hashable):
                 format2 = True
             elif len(first_edge) == 2:
                 format3 = True
